@@ -42,6 +42,38 @@ class _Env:
     apps = {}
 
 
+ORG = 'sim.example'
+# the identity provider's answers to /api/auth?access_token=<token>
+PROFILES = {
+    'tok-alice': {'preferred_username': 'Alice',
+                  'email': 'alice@' + ORG},
+    'tok-root': {'preferred_username': 'Root', 'email': 'root@' + ORG},
+    'tok-root-othermail': {'preferred_username': 'root',
+                           'email': 'root@%s.evil.net' % ORG},
+    'tok-root-nomail': {'preferred_username': 'root'},
+    'tok-alice-othermail': {'preferred_username': 'alice',
+                            'email': 'alice@elsewhere.org'},
+    'tok-nouser': {'email': 'ghost@' + ORG},
+}
+# session state reached through the login route -> (token, what the
+# session must be worth afterwards)
+LOGINS = {
+    'login-user': ('tok-alice', 'user'),
+    'login-admin': ('tok-root', 'admin'),
+    'login-refused-admin-othermail': ('tok-root-othermail', 'none'),
+    'login-refused-admin-nomail': ('tok-root-nomail', 'none'),
+    'login-refused-user-othermail': ('tok-alice-othermail', 'none'),
+    'login-refused-nouser': ('tok-nouser', 'none'),
+}
+
+
+def effective(sess):
+    """What a session state is worth to the reference ACL."""
+    if sess in LOGINS:
+        return LOGINS[sess][1]
+    return 'none' if sess == 'admin-logged-out' else sess
+
+
 def make_app(kind, scratch):
     """One real Flask app per host kind, on an inert BertE."""
     if kind in _Env.apps:
@@ -92,13 +124,22 @@ def make_app(kind, scratch):
                 'repository_slug': 'simrepo', 'build_key': 'pre-merge',
                 'pull_request_base_url': 'https://h/pr/{pr_id}',
                 'commit_base_url': 'https://h/c/{commit_id}',
-                'admins': ['root', 'root2'], 'organization': '',
+                'admins': ['root', 'root2'], 'organization': ORG,
                 'robot': 'robot'})
             self.git_repo = SimpleNamespace()
             self.task_queue = Queue()
             self.tasks_done = collections.deque(maxlen=1000)
             self.status = {}
     berte = SimBertE()
+    # the OAuth provider is a peer outside the system: its profile answer
+    # comes from the table above
+    import loginpass
+
+    def profile(self, **kw):
+        tok = (kw.get('token') or {}).get('access_token')
+        return dict(PROFILES[tok])
+    loginpass.Bitbucket.profile = profile
+    loginpass.GitHub.profile = profile
     app = server.setup_server(berte)
     app.config['WTF_CSRF_ENABLED'] = True
     app.config['TESTING'] = False
@@ -149,6 +190,11 @@ def api_cells():
                         continue   # that is another endpoint's cell
                     cells.append({'t': 'api', 'ep': name, 'method': method,
                                   'sess': sess, 'p': pv})
+        # sessions obtained through the login route (accepted and refused
+        # logins): the endpoint's own method, one well-formed parameter set
+        for sess in sorted(LOGINS):
+            cells.append({'t': 'api', 'ep': name, 'method': ep.method,
+                          'sess': sess, 'p': params[0]})
     for form in FORMS:
         name = form.__name__
         ep = form.endpoint_cls
@@ -157,6 +203,9 @@ def api_cells():
             for pv in params:
                 cells.append({'t': 'form', 'form': name, 'ep': ep.__name__,
                               'sess': sess, 'p': pv})
+        for sess in sorted(LOGINS):
+            cells.append({'t': 'form', 'form': name, 'ep': ep.__name__,
+                          'sess': sess, 'p': params[0]})
     return cells
 
 
@@ -242,6 +291,10 @@ class Matrix:
     def set_session(self, cl, want):
         """Drive a client's session to the wanted state (churn included)."""
         c = cl['c']
+        if cl['state'] == 'refused-login':
+            # nothing to log out from: a new browser session
+            cl['c'] = c = self.app.test_client()
+            cl['state'] = 'none'
         if want == 'none':
             if cl['state'] != 'none':
                 r = c.get('/logout')
@@ -251,6 +304,35 @@ class Matrix:
             self.set_session(cl, 'admin')
             c.get('/logout')
             cl['state'] = 'none'
+            return
+        if want in LOGINS:
+            # through the front door: whatever the client was before, it
+            # logs out, then presents a token to /api/auth
+            token, worth = LOGINS[want]
+            if cl['state'] != 'none':
+                c.get('/logout')
+                cl['state'] = 'none'
+            self.nlogin = getattr(self, 'nlogin', 0) + 1
+            hdrs = {'Content-Type': 'application/json'} \
+                if self.nlogin % 2 else {}
+            try:
+                r = c.get('/api/auth?access_token=' + token, headers=hdrs)
+                status = r.status_code
+            except Exception:
+                status = 500
+            if worth == 'none' and status < 400:
+                raise Violation(
+                    'C14', 'C14:login-accepted:' + want,
+                    'the login of %s (%r, organization %s) was answered %d'
+                    % (token, PROFILES[token], ORG, status), {})
+            if worth != 'none' and status >= 400:
+                raise Violation(
+                    'C14', 'C14:login-refused:' + want,
+                    'the login of %s (%r, organization %s) was answered %d'
+                    % (token, PROFILES[token], ORG, status), {})
+            self.probe('login-' + ('accepted' if worth != 'none'
+                                   else 'refused'))
+            cl['state'] = want if worth != 'none' else 'refused-login'
             return
         user = 'root' if want == 'admin' else 'alice'
         with c.session_transaction() as s:
@@ -283,8 +365,8 @@ class Matrix:
         ep = [e for e in ENDPOINTS if e.__name__ == cell['ep']][0]
         if cell.get('method', ep.method) != ep.method:
             return 'refuse'
-        sess = cell['sess']
-        if sess in ('none', 'admin-logged-out'):
+        sess = effective(cell['sess'])
+        if sess == 'none':
             return 'refuse'
         need_admin = cell['ep'] in ADMIN_ENDPOINTS
         if cell['ep'] not in KNOWN_ENDPOINTS:
@@ -374,7 +456,7 @@ class Matrix:
                 'C14', 'C14:job-parameters:' + tag,
                 'the %s job carries %r, the validated request said %r' % (
                     ep.job.__name__, got, want), {'cell': cell})
-        user = 'root' if cell['sess'] == 'admin' else 'alice'
+        user = 'root' if effective(cell['sess']) == 'admin' else 'alice'
         if job.user != user:
             raise Violation('C14', 'C14:job-user:' + tag,
                             'job user is %r, session user %r' % (job.user,
@@ -616,8 +698,10 @@ class C14:
     MINIMISE = False
     RULE = ('one evaluation = one complete pass over the request matrix '
             '(every registered API endpoint and form x 5 methods x 4 session '
-            'states x parameter variants; both webhook routes x 4 '
-            'credentials x 3 repository identities x handled and unhandled '
+            'states x parameter variants, plus 6 session states obtained '
+            'through the login route - accepted and refused logins; both '
+            'webhook routes x 4 credentials x 9 repository identities x '
+            'handled and unhandled '
             'event types) on a Bitbucket- or GitHub-configured instance, in '
             'a seeded order interleaved over 3 clients with session churn; '
             'distinct = different order; non-trivial = a pass that executed '
@@ -627,8 +711,9 @@ class C14:
             'BertE.put_job', 'job classes',
             'bert_e.git_host.github event classes (github instance)']
     STUBBED = ['BertE.__init__ (inert instance: no git, mock/github client '
-               'on the simulated host)', 'OAuth login (sessions are set '
-               'through the test client)', 'outgoing HTTP of the forms '
+               'on the simulated host)', 'the OAuth identity provider (profile answers '
+               'come from a table; /api/auth and _handle_authorize are the '
+               'real ones; the browser redirect flow is not exercised)', 'outgoing HTTP of the forms '
                '(looped back into the same app)']
     ASSUMPTIONS = ['the reference ACL (DESIGN.md A.5) lists the admin '
                    'endpoints by name; endpoints unknown to it are held to '
